@@ -12,7 +12,7 @@ import (
 )
 
 func init() {
-	register(&Scenario{Prop: "C18", Horizon: 2 * time.Hour, Steps: 300000, Setup: setupC18})
+	register(&Scenario{Prop: "C18", NoStalls: true, Horizon: 2 * time.Hour, Steps: 300000, Setup: setupC18})
 }
 
 var c18Kinds = []string{"success", "success", "remote-denial", "ship-id-mismatch", "cut", "pending", "pending-approve", "pending-cancel", "success-disconnect"}
